@@ -29,6 +29,7 @@ let cop_of toks = match toks with
   | "traverse" :: _ -> CTraverse | "typeprint" :: _ -> CTypePrint | "distget" :: _ -> CDistGet
   | "distrelease" :: _ -> CDistGet   (* the harness pairs every get with its release *)
   | "mameta" :: _ -> CMaMeta | "localnodes" :: _ -> CLocalNodes | "cpukinds" :: _ -> CCpukinds
+  | "defaultnodeset" :: _ -> CDefaultNodeset | "helpers" :: _ -> CHelpers
   | "sets" :: _ -> CSets | "bitmap" :: _ -> CBitmap | "exportxml" :: _ -> CExportXml | "exportsynth" :: r -> CExportSynth (fb r "warns")
   | "maget" :: q :: a :: _ ->
     let q' = match int_of_string q with 0 -> QValue | 1 -> QBestTarget | 2 -> QBestInitiator | 3 -> QTargets | _ -> QInitiators in
